@@ -211,18 +211,28 @@ fn part_a(sh: &mut Shard, rng: &mut Rng, dir: &Path, n: usize) {
     for i in 0..n {
         let class = *rng.pick(&["empty", "one", "small", "mixed", "mixed", "mixed", "large", "wide", "wide"]);
         let seed = rng.next();
-        let case = json!({"part":"A","class":class,"snap_seed":seed.to_string()});
+        // "every snapshot written is read back unchanged" also when the file already holds another one: a third of the cases
+        // first store a snapshot of another class (often larger, or non-empty before an empty one) at the same path
+        let before_class = if rng.chance(1, 3) { Some(*rng.pick(&["one", "small", "mixed", "large", "wide", "empty"])) } else { None };
+        let before_seed = rng.next();
+        let case = json!({"part":"A","class":class,"snap_seed":seed.to_string(),"before_class":before_class,"before_seed":before_seed.to_string()});
         if !sh.begin(&format!("A|{class}"), &case) {
             continue;
         }
         let snap = gen_snapshot(seed, class);
         let path = dir.join(format!("a{i}.bin"));
         let want = canon_snapshot(&snap);
+        let before = before_class.map(|c| gen_snapshot(before_seed, c));
+        if before.is_some() {
+            sh.count("A_stores_over_an_existing_snapshot", 1);
+        }
         let res = catch(|| {
             let st = FileRetainStore::new(path.clone());
+            if let Some(b) = &before {
+                st.store(b).map_err(|e| format!("store: {e}"))?;
+            }
             st.store(&snap).map_err(|e| format!("store: {e}"))?;
             let got = st.load().map_err(|e| format!("load: {e}"))?;
-            // second save over the first (different size) must also read back
             Ok::<_, String>(got)
         });
         match res {
@@ -233,7 +243,7 @@ fn part_a(sh: &mut Shard, rng: &mut Rng, dir: &Path, n: usize) {
                 if g != want {
                     let at = g.bytes().zip(want.bytes()).position(|(a, b)| a != b).unwrap_or(0);
                     let ctx: String = want.chars().skip(at.saturating_sub(30)).take(80).collect();
-                    sh.violation("A|roundtrip-differs", format!("snapshot class {class}: first difference near `{ctx}`"), case.clone());
+                    sh.violation(if before.is_some() { "A|roundtrip-differs|over-existing-snapshot" } else { "A|roundtrip-differs" }, format!("snapshot class {class} (stored over {before_class:?}): first difference near `{ctx}`"), case.clone());
                 } else {
                     sh.count("A_roundtrips_equal", 1);
                     sh.count("A_values_compared", snap.values().len() as u64);
@@ -755,6 +765,10 @@ fn replay(sh: &mut Shard, path: &str, base: &Path) {
             let snap = gen_snapshot(seed, &class);
             let p = base.join("r.bin");
             let st = FileRetainStore::new(p);
+            if let Some(bc) = r["before_class"].as_str() {
+                let bs: u64 = r["before_seed"].as_str().and_then(|s| s.parse().ok()).unwrap_or(1);
+                let _ = catch(|| st.store(&gen_snapshot(bs, bc)));
+            }
             match catch(|| st.store(&snap).and_then(|_| st.load())) {
                 Ok(Ok(got)) if canon_snapshot(&got) == canon_snapshot(&snap) => {}
                 other => sh.violation("A|replay", format!("{:?}", other.map(|x| x.map(|s| s.values().len()))), r.clone()),
